@@ -153,11 +153,15 @@ def _promote(arr):
     return arr.astype(np.float64)
 
 
-def _image(kind, cls, arr, role):
+def _image(kind, cls, arr, role, stamp=None):
     import darsia
 
     meta = {"dimensions": [1.5, 2.0], "origin": [3.0, -2.0]}
-    if role == "probe":
+    if role == "probe" and stamp == "mixed2":
+        meta.update(time=0.0, name="probe")  # a relative time of exactly zero, no date
+    elif role == "probe" and stamp == "small":
+        meta.update(time=2.5, name="probe")  # a relative time, no date
+    elif role == "probe":
         meta.update(date=datetime.datetime(2020, 1, 1, 12, 0, 0), reference_date=datetime.datetime(2020, 1, 1, 0, 0, 0), name="probe")
     else:
         meta.update(date=datetime.datetime(2020, 1, 1, 0, 0, 0), name=role)
@@ -416,7 +420,7 @@ def run_case(case, r):
         n_hist = 5
     base_img = _image(kind, cls, _to_dtype(B, dt), "base")
     extra_imgs = [_image(kind, cls, _to_dtype(B + _ints(shape, rgb, "noise", k), dt), f"extra{k}") for k in range(extras)]
-    probes = [("self", base_img)] + [(n, _image(kind, cls, _to_dtype(a, pdt), "probe")) for n, a in probe_ints]
+    probes = [("self", base_img)] + [(n, _image(kind, cls, _to_dtype(a, pdt), "probe", stamp=n)) for n, a in probe_ints]
     n_main = len(probes)
     if tier == "thorough" and fam == "stub" and cls == "special" and case["pdtype"] == "same":
         for pos in range(B.size):
@@ -463,6 +467,23 @@ def run_case(case, r):
                        exception=f"{type(e).__name__}: {e}")
                 break
             call_log = list(log)
+            # -- the stage order is a public option of the object: an analysis constructed (and used)
+            # with the other order and then switched behaves like one constructed with this order
+            if pi == 1 and objs["res"] is not None and objs["mod"] is not None:
+                try:
+                    an2 = darsia.ConcentrationAnalysis(
+                        [base_img] + extra_imgs if extras else base_img,
+                        objs["red"], objs["bal"], objs["res"], objs["mod"],
+                        **{"diff option": opt, "restoration -> model": order != "rm"},
+                    )
+                    an2(probe)
+                    an2.first_restoration_then_model = order == "rm"
+                    del log[:]
+                    res2 = an2(probe)
+                    r.check(_same(np.asarray(res2.img), np.asarray(res.img), 0.0), cell("stage-order"), "switching the order option on a constructed (and used) analysis gives the result of an analysis constructed with that order", diff=opt, order=order, got=np.asarray(res2.img), want=np.asarray(res.img))
+                except Exception as e:  # noqa: BLE001
+                    r.fail(cell("no-exception"), "construction and call succeed for every configuration in the quantifier", diff=opt, probe=pname, exception=f"{type(e).__name__}: {e}")
+                del log[:]
             # -- probe untouched
             r.check(canon.digest(probe) == snaps[pi], cell("probe-unmodified"), "the probe image (data, dtype, metadata) is left unmodified", diff=opt, probe=pname)
             # -- composition
